@@ -192,8 +192,9 @@ PROPS = {
                   "BB.Props.C17.unheld_not_stuck", "BB.Props.C17.mu_step", "BB.Props.C17.unheld_stable",
                   "BB.Props.C17.unheld_instance_is_eventually_stopped", "BB.Props.C17.demoRun_fair"],
         corr=[dict(family="worker", quick=300, thorough=5000, mismatch_is_violation=True, no_shrink=True,
-                   nontrivial=has("fresh_instance_after_stop", "do_while_watcher_waiting", "stop_seen_before_hook"),
-                   rule="worker: 1-5 free-running holders x 2-7 Do/done rounds with PRNG perturbation on one real Worker; verif hook points in Do's critical "
+                   nontrivial=has("fresh_instance_after_stop", "do_while_watcher_waiting", "stop_seen_before_hook", "churn", "hammer"),
+                   rule="worker: every 12th case is a churn program (2-5 holders x 1500-3000 Do/done rounds without any pause: the gaps between the watcher's critical "
+                        "sections are only met by hammering); otherwise 1-5 free-running holders x 2-7 Do/done rounds with PRNG perturbation on one real Worker; verif hook points in Do's critical "
                         "section, at the watcher's wait-group take / Wait return / stop close / exit and at the function's return, plus the function's own start / "
                         "saw-stop events, form one total order that the Lean transition system must accept (Do only while the watcher does not hold the mutex, an "
                         "instance started exactly when the model says, stop closed only with no holder outstanding, Wait returns only at counter 0); non-trivial = "
@@ -580,6 +581,7 @@ PROPS["C12"]["theorems"] += ["BB.LockOrder.no_wait_cycle", "BB.LockOrder.no_dead
 with_conform(PROPS["C09"], "Exclusive")
 with_conform(PROPS["C10"], "Exclusive", "Generic")
 with_conform(PROPS["C14"], "Generic")
+with_conform(PROPS["C17"], "Worker")
 with_conform(PROPS["C08"], "Caster")
 with_conform(PROPS["C06"], "PubSub", "Caster")
 with_conform(PROPS["C07"], "PubSub", "Caster", "LockOrder", "Generic")
